@@ -275,6 +275,12 @@ func computeEncryptHelpers(p *core.Prog) {
 				if c, ok := in.(*ssa.Call); ok && isEncryptCall(c) {
 					has = true
 				}
+				// a helper that only marshals into a fresh buffer and hands it back
+				if c, ok := in.(*ssa.Call); ok {
+					if f := c.Call.StaticCallee(); f != nil && f.Name() == "MarshalTo" {
+						has = true
+					}
+				}
 			}
 		}
 		if !has {
@@ -323,6 +329,9 @@ func writeEntries(p *core.Prog) []*ssa.Function {
 		for _, b := range fn.Blocks {
 			for _, in := range b.Instrs {
 				if c, ok := in.(*ssa.Call); ok && isEncryptCall(c) {
+					has = true
+				}
+				if _, isHelper := encryptHelperSummary[fn]; isHelper {
 					has = true
 				}
 				// a caller of an encrypt helper can encrypt as well
